@@ -35,12 +35,17 @@ Inductive outcome := OAccept (m : list (list Q)) (o_is_none : bool) | OOpt | OVa
 Inductive kase :=
 | KFault (d : dev Q) (p : price Q) (s0 : option (list Q)) (prox : option Q) (stub : optresult Q) (probe : list Q)
          (called : bool) (ox0 : list Q) (ofun : Q) (ojac : list Q) (nb nc : nat) (out : outcome)
+         (uopts : sopts Q) (oopts : sopts Q) (okeys : nat)
 | KSolve (rows n : nat) (bnd : list (Q * Q)) (x : list (list Q)) (resid gap gtol : Q)
 | KMustRaise (raised : bool).
 Definition is_none {T} (o : option T) : bool := match o with None => true | Some _ => false end.
+Definition oeq {T} (e : T -> T -> bool) (a b : option T) : bool :=
+  match a, b with Some x, Some y => e x y | None, None => true | _, _ => false end.
+Definition opts_eq (m o : sopts Q) : bool :=
+  oeq (Qclose Qtol) (so_ftol m) (so_ftol o) && oeq Z.eqb (so_maxiter m) (so_maxiter o) && oeq Bool.eqb (so_disp m) (so_disp o).
 Definition chk (c : kase) : bool :=
   match c with
-  | KFault d p s0 prox stub probe called ox0 ofun ojac nb nc out =>
+  | KFault d p s0 prox stub probe called ox0 ofun ojac nb nc out uopts oopts okeys =>
       let dv := tree_view d p in
       let pb := solve_problem dv s0 prox in
       let consulted := if all_fixed (dv_bounds dv) then false
@@ -48,7 +53,8 @@ Definition chk (c : kase) : bool :=
       if Bool.eqb consulted called then
         (if called then
            Qclose_list Qtol (pb_x0 pb) ox0 && Qclose Qtol (pb_fun pb probe) ofun && Qclose_list Qtol (pb_jac pb probe) ojac &&
-           Nat.eqb nb (List.length (pb_bounds pb)) && Nat.eqb nc (List.length (pb_cons pb))
+           Nat.eqb nb (List.length (pb_bounds pb)) && Nat.eqb nc (List.length (pb_cons pb)) &&
+           opts_eq (solve_options uopts) oopts && Nat.eqb okeys 3
          else true) &&
         match solve_model (fun _ => stub) dv s0 prox, out with
         | SAccept m o, OAccept m' none => Qclose_mat Qtol m m' && Bool.eqb (is_none o) none
@@ -90,6 +96,9 @@ TRUSTED_EXTRA = ['scipy.optimize.linprog (HiGHS) computing the Frank-Wolfe gap a
                  'c18_common.linear_description: affine constraints recovered by probing the exported callables']
 CONVEX_CLASSES = ['Device', 'PVDevice', 'CDevice', 'CDevice2', 'IDevice', 'IDevice2', 'GDevice']
 STATUSES = list(range(10))
+# solver_options of the observed call, and of a call made just BEFORE it on another device (None: no earlier call)
+OPTS = [{}, {}, {'ftol': F(1, 128)}, {'maxiter': 50}, {'ftol': F(1, 1024), 'maxiter': 7, 'disp': False}, {'disp': True}]
+PRE = [None, {'ftol': F(1, 4)}, {'maxiter': 3, 'disp': True}, None, {'ftol': F(1, 2), 'maxiter': 1}]
 XKINDS = ['good', 'short', 'long', 'empty']
 
 
@@ -176,7 +185,8 @@ def gen_cases(rng, tier):
           if tier == 'search' and rng.random() < .7:
             continue
           c = dict(cfg)
-          c.update({'kind': 'fault', 'status': st, 'success': ok, 'xkind': xk})
+          oi = st * 8 + 4 * int(ok) + XKINDS.index(xk)
+          c.update({'kind': 'fault', 'status': st, 'success': ok, 'xkind': xk, 'opts': OPTS[oi % len(OPTS)], 'pre': PRE[(oi // 3) % len(PRE)]})
           out.append(c)
   for i in range(110 * k):
     for _ in range(6):      # prefer feasible models here (infeasible ones have their own stream below)
@@ -213,6 +223,15 @@ def stub_x(c):
   return {'good': g, 'short': g[:-1], 'long': g + [F(1)], 'empty': []}[c['xkind']]
 
 
+def py_opts(o):
+  return {k: (float(v) if k == 'ftol' else v) for k, v in o.items()}
+
+
+def coq_opts(o):
+  f = lambda k, conv: Raw('None') if o.get(k) is None else Some(conv(o[k]))
+  return Raw('(@Build_sopts Q %s %s %s)' % (cq(f('ftol', lambda v: fr(float(v)))), cq(f('maxiter', int)), cq(f('disp', bool))))
+
+
 def run_solve(dev, c, minimize=None):
   """-> ('accept', x, o) | 'opt' | 'value'; other exceptions propagate"""
   import importlib
@@ -221,8 +240,15 @@ def run_solve(dev, c, minimize=None):
   if minimize is not None:
     S.minimize = minimize
   try:
+    if c.get('pre') is not None and minimize is not None:
+      # an earlier call with other options on an unrelated device: must not influence the observed call
+      from scipy.optimize import OptimizeResult
+      import device_kit as dk
+      S.minimize = lambda **kw: OptimizeResult(x=np.array(kw['x0'], dtype=float), success=True, status=0, message='stub', fun=0.0)
+      S.solve(dk.Device('pre', 2, (0, 1)), 0, None, py_opts(c['pre']))
+      S.minimize = minimize
     try:
-      x, o = S.solve(dev, tg.py_price(c['p']), py_start(c, dev), {}, None if c['prox'] is None else float(c['prox']))
+      x, o = S.solve(dev, tg.py_price(c['p']), py_start(c, dev), py_opts(c.get('opts') or {}), None if c['prox'] is None else float(c['prox']))
     except S.OptimizationException:
       return 'opt'
     except ValueError:
@@ -248,6 +274,7 @@ def observe_fault(c):
     rec['jac'] = fr(j)
     rec['nb'] = len(kw['bounds'])
     rec['nc'] = len(kw['constraints'])
+    rec['opts'] = dict(kw.get('options') or {})
     if kw.get('method') != 'SLSQP':
       raise AssertionError('method %r' % (kw.get('method'),))
     return OptimizeResult(x=np.array(fl(stub_x(c)), dtype=float), success=c['success'], status=c['status'], message='stub', fun=0.0)
@@ -354,10 +381,11 @@ def coq_case(c, o):
     prox = Raw('None') if c['prox'] is None else Some(c['prox'])
     stub = Raw('(Build_optresult %s %s %s)' % (cq(bool(c['success'])), cq(int(c['status'])), cq(stub_x(c))))
     called = o['called']
-    return '(KFault %s %s %s %s %s %s %s %s %s %s %s %s %s)' % (
+    return '(KFault %s %s %s %s %s %s %s %s %s %s %s %s %s %s %s %s)' % (
         cq(tg.coq_tree(c['t'])), cq(tg.coq_price(c['p'])), cq(s0), cq(prox), cq(stub), cq(c['probe']), cq(called),
         cq(o['x0'] if called else []), cq(o['fun'] if called else F(0)), cq(o['jac'] if called else []),
-        cq(N(o['nb'] if called else 0)), cq(N(o['nc'] if called else 0)), cq(coq_out(o['out'])))
+        cq(N(o['nb'] if called else 0)), cq(N(o['nc'] if called else 0)), cq(coq_out(o['out'])),
+        cq(coq_opts(c.get('opts') or {})), cq(coq_opts(o.get('opts') or {})), cq(N(len(o.get('opts') or {}))))
   if c['kind'] == 'infeasible' or (o['out'] != 'accept' and True):
     # a raise: acceptable for every kind except that an infeasible model MUST raise
     if c['kind'] == 'infeasible' and not o['lp_feasible']:
@@ -407,8 +435,12 @@ def case_to_json(c):
        'prox': None if c['prox'] is None else core.jsonable(c['prox'])}
   if c['kind'] == 'fault':
     d.update({'cfg': c['cfg'], 'probe': core.jsonable(c['probe']), 'good': core.jsonable(c['good']), 'status': c['status'],
-              'success': c['success'], 'xkind': c['xkind']})
+              'success': c['success'], 'xkind': c['xkind'], 'opts': core.jsonable(c.get('opts') or {}), 'pre': core.jsonable(c.get('pre'))})
   return d
+
+
+def opts_from_json(o):
+  return {k: (F(v) if k == 'ftol' else v) for k, v in o.items()}
 
 
 def case_from_json(j):
@@ -417,7 +449,7 @@ def case_from_json(j):
        'prox': None if j['prox'] is None else F(j['prox'])}
   if j['kind'] == 'fault':
     c.update({'cfg': j['cfg'], 'probe': [F(v) for v in j['probe']], 'good': [F(v) for v in j['good']], 'status': int(j['status']),
-              'success': bool(j['success']), 'xkind': j['xkind']})
+              'success': bool(j['success']), 'xkind': j['xkind'], 'opts': opts_from_json(j.get('opts') or {}), 'pre': None if j.get('pre') is None else opts_from_json(j['pre'])})
   return c
 
 
